@@ -757,7 +757,11 @@ func (e *Engine) evalSpec(env *specEnv, x ast.Expr) specVal {
 			v := make(Value, len(l))
 			has := And(Ne(a.v[0], Zero), env.s.selectIn(env.heap, "mapdom("+tk+")", SBool, addr))
 			for k, sl := range l {
-				v[k] = Ite(has, env.s.selectIn(env.heap, "mapval("+tk+")"+sl.Suffix, sl.Sort, addr), zeroOf(sl.Sort))
+				raw := env.s.selectIn(env.heap, "mapval("+tk+")"+sl.Suffix, sl.Sort, addr)
+				if _, isPtr := u.Elem().Underlying().(*types.Pointer); isPtr && k == 0 {
+					noteQuantRefSlot(raw)
+				}
+				v[k] = Ite(has, raw, zeroOf(sl.Sort))
 			}
 			return specVal{v, u.Elem()}
 		case *types.Array:
@@ -949,6 +953,10 @@ func (e *Engine) evalSpecCall(env *specEnv, n *ast.CallExpr) specVal {
 			return specVal{Value{And(Lt(env.wm, a.v[0]), Le(a.v[0], env.wmpost))}, boolT}
 		}
 		return specVal{Value{freshCond(a.v[0])}, boolT}
+	case "existed":
+		// existed(x): x is nil or an object that existed when the function under verification was entered
+		a := e.evalSpec(env, n.Args[0])
+		return specVal{Value{Le(a.v[len(a.v)-1], Sym("ALLOC0", SInt))}, boolT}
 	case "allocated":
 		// allocated(x): x is nil or an object that exists now (at most the current allocation watermark)
 		a := e.evalSpec(env, n.Args[0])
